@@ -131,6 +131,8 @@ fn check_cell(c: &Cell, st: &mut Stats) -> Result<(), String> {
             }
             if c.status != 100 {
                 match call.into_body() {
+                    // in a don't-care cell the library may reject, and on this API it may do so when the body is asked for
+                    Err(_) if matches!(expect, Expect::Any) => {}
                     Err(e) => return Err(format!("{}: into_body failed: {:?}", what(), e)),
                     Ok(None) => {
                         // "the state after the head is the body state exactly when a non-empty body is expected": for a declared
